@@ -4,6 +4,7 @@ package node
 
 import (
 	hg "github.com/mosaicnetworks/babble/src/hashgraph"
+	"github.com/mosaicnetworks/babble/src/peers"
 )
 
 // No-op twins of the simulation hooks (see zz_sim_verif.go). They compile to
@@ -16,3 +17,7 @@ func simYield(n *Node, site string) {}
 func simRecordHeads(c *core) (bool, error) { return false, nil }
 
 func simCanonicalise(events []*hg.Event) {}
+
+func simDeferRespond(p *joinPromise, accepted bool, acceptedRound int, ps []*peers.Peer) bool {
+	return false
+}
